@@ -42,7 +42,7 @@ import (
 	"strings"
 )
 
-func init() { extraSections = append(extraSections, factsAckLock) }
+func init() { extraSections = append(extraSections, section{"acklock", factsAckLock}) }
 
 var ackWaitRe = regexp.MustCompile(`^\w+\.sess\.\w+\.Wait$`)
 
